@@ -184,7 +184,7 @@ fn random_format(rng: &mut Rng) -> String {
             2 => {
                 // unknown / odd
                 s.push('%');
-                s.push_str(*rng.pick(&["q", "é", "J", "i", "f", "K", "E", "O", "Eq", "OY", "Ey", ":", "::", ":z", "::z", ":::z", ":a", "::é", "日", "!", " ", "1", "€"]));
+                s.push_str(*rng.pick(&["q", "é", "J", "i", "f", "K", "E", "O", "Eq", "OY", "Ey", ":", "::", ":z", "::z", ":::z", ":a", "::é", "日", "!", " ", "1", "€", "\u{663}", "\u{ff15}d", "\u{bd}"]));
             }
             _ => {
                 s.push('%');
@@ -325,6 +325,18 @@ pub fn run(ctx: &mut Ctx) {
         }
     }
 
+    // every width 1..=12 of the two fraction directives x fractions with leading zeros
+    for ns in [0u32, 1, 99, 5_000_000, 50_000_000, 99_999_999, 100_000_000, 123_456_789, 9_000_000, 999_999_999, 10] {
+        if let Some(o) = civil(2022, 1, 3, 7, 56, 37, ns, 6 * 3600) {
+            for w in 1..=12 {
+                for f in ["", "-", "0", "_"] {
+                    g.fmt_case("dir:frac-width", o, &format!("%{}{}N", f, w));
+                    g.fmt_case("dir:frac-width", o, &format!("%{}{}L", f, w));
+                }
+            }
+        }
+    }
+
     // --- C. unknown directives (every other ASCII char, non-ASCII), modifiers, malformed ---
     let o = five_ms;
     for b in 0x20u8..0x7f {
@@ -335,7 +347,9 @@ pub fn run(ctx: &mut Ctx) {
             g.fmt_case("unknown-ascii", o, &format!("%E{}", c));
         }
     }
-    for c in ['é', 'ß', '日', '€', '😀', '\u{80}', '\u{7ff}', '\u{800}', '\u{ffff}', '\u{10000}', '\u{a0}'] {
+    // (among them characters Unicode classes as numeric or as letters/digits of other scripts: none of
+    // them is a width, a flag or a directive)
+    for c in ['é', 'ß', '日', '€', '😀', '\u{80}', '\u{7ff}', '\u{800}', '\u{ffff}', '\u{10000}', '\u{a0}', '\u{663}', '\u{ff15}', '\u{bd}', '\u{b2}', '\u{2167}', '\u{ff0d}', '\u{ff3f}', '\u{3007}'] {
         for pre in ["%", "%-", "%_5", "%E", "%O", "%:", "%::", "%10:", "x%0"] {
             g.fmt_case("unknown-utf8", o, &format!("{}{}", pre, c));
             g.fmt_case("unknown-utf8", o, &format!("é{}{}%Y{}", pre, c, c));
